@@ -17,6 +17,11 @@ SCRIPTS = {
                ["vnacal_create.c", "vnacal_free.c", "vnacal_parameter.c", "vnacal_make_scalar_parameter.c",
                 "vnacal_make_vector_parameter.c", "vnacal_make_unknown_parameter.c", "vnacal_delete_parameter.c",
                 "vnacal_error.c", "vnacal_layout.c", "vnacal_rfi.c", "vnacal_calibration.c"], 0, 10),
+    "vnacal_corr": ("h_script_vnacal", ["-DS_VNACAL", "-DS_CORRELATED", "-DVERIF_CUT_rfi_after_search=__CPROVER_assume(0)"],
+               ["vnacal_create.c", "vnacal_free.c", "vnacal_parameter.c", "vnacal_make_scalar_parameter.c",
+                "vnacal_make_vector_parameter.c", "vnacal_make_unknown_parameter.c", "vnacal_make_correlated_parameter.c",
+                "vnacal_delete_parameter.c", "vnacommon_spline.c",
+                "vnacal_error.c", "vnacal_layout.c", "vnacal_rfi.c", "vnacal_calibration.c"], 0, 10),
     "vnacal_new": ("h_script_vnacal_new", ["-DS_VNACAL_NEW", "-DVERIF_CUT_rfi_after_search=__CPROVER_assume(0)"],
                    ["vnacal_create.c", "vnacal_free.c", "vnacal_new.c", "vnacal_new_add_common.c",
                     "vnacal_new_build_equation_terms.c", "vnacal_new_parameter.c", "vnacal_parameter.c",
@@ -77,7 +82,7 @@ def jobs(tier):
                            bound="scripted history '%s', allocation index k=%d of %d failed once; values symbolic" % (name, k, K),
                            cbmc_flags=(["--object-bits", "14"] if name == "vnadata_addf" else []),
                            # the qsort model's nested loops at the harness default of 160 exhaust memory; the table walk needs 9
-                           unwindset=({"qsort.0": 6, "qsort.1": 6, "qsort.2": 6, "prm_ok.0": 10} if name == "vnacal" else None),
+                           unwindset=({"qsort.0": 6, "qsort.1": 6, "qsort.2": 6, "prm_ok.0": 10} if name in ("vnacal", "vnacal_corr") else None),
                            timeout=(300 if tier == 'quick' else 1500)))
     return J
 
